@@ -152,7 +152,7 @@ func init() {
 		Rule: "case k: a reflect.StructOf declaration (nested/namespaced groups, commands to depth 3 by tag and by AddCommand, Commander nodes) with a focus option whose type is typesAll[k mod T], whose home is {root, nested group, namespaced group, command, namespaced group of a command}[k/T mod 5] and which is given (k/5T mod 3)+1 times; an intent-rendered valid argument vector (every admissible spelling, clusters, positionals, command words by name/alias, terminator, pre-existing field contents, plain canary fields). " +
 			"Non-trivial = the parse was executed and every option field, callback log entry, positional and plain field was compared with the denotation; distinct = (cell, spellings of the focus occurrences, command depth, parser options).",
 		Assumptions: []string{"option types are drawn from the harness pool (no arrays/interfaces/user structs without unmarshalers)", "optional-argument options are scalar only; given bare without any optional-value their value is left unjudged", "POSIX option style only"},
-		Technique:   "runtime reference-model monitor: intent-rendered argv, value snapshot + callback log compared with an independent denotation; stratified seeded workload; metamorphic history monitor ([use, change of the public model, use] on one parser vs. a fresh parser of the changed declaration)",
+		Technique:   "runtime reference-model monitor: intent-rendered argv, value snapshot + callback log compared with an independent denotation; stratified seeded workload; metamorphic history monitor ([use, change of the public model, use] on one parser vs. a fresh parser of the changed declaration); ownership monitors on caller-held data (the argument vector handed to ParseArgs, lists and maps the program stored into option fields before parsing)",
 		LevelText:   "Exploration: 6x10^4 (quick) to 2x10^6 (thorough) generated (declaration, argv) points, stratified so that every (type x home x occurrence count) cell is hit at every seed, each judged by a case-independent denotation oracle. Appropriate because the property quantifies over a product space of inputs of a deterministic, single-threaded function.",
 		LevelNote:   "Trusted: the harness's declaration builder, the intent walker (which encodes the documented parsing rules) and the reference conversion functions (self-tested).",
 		DesignRef:   "§4 C01",
